@@ -30,7 +30,9 @@ RULE = ("every documented goalign command with representative flags, on random n
         "and all files written; seeded commands with random seeds; reformat chains over random permutations of fasta / phylip / nexus "
         "/ clustal; seqboot + compute distance against distboot for 5 models; cli_seeded: exact predicted bytes. Non-trivial = the "
         "command succeeded and wrote at least 20 bytes (or it is an error-path case with at least two invalid arguments)")
-PARTIAL = ["the bytes of each individual command are not modelled here (C01-C10, C12-C16 model the operations); C11's theorems are about "
+PARTIAL = ["the bytes of each individual command are not modelled here (C01-C10, C12-C16 model the operations; exceptions: the seeded commands "
+           "of `cli_seeded`, and `divide` / `identical`, whose files / answer are predicted from the Phylip parser model, the writers and a "
+           "four-line model of Identical - oracle only, no theorem); C11's theorems are about "
            "the sources of nondeterminism, seeding, thread independence of the pool / ordered collection, distboot = seqboot + distance, "
            "and format chains",
            "chain theorem instantiated for FASTA, Nexus, Phylip (8 layouts) and Clustal (chain_all_formats, under the hypotheses of "
@@ -272,6 +274,22 @@ def gen_seeded(rng, tier):
                                                                   (["--rogue-file"], rng.choice(["none", "stdout", "-"]), 0.3)),
                    n >= 2, "seeded-shuffle-rogue")
         yield Case("cli_seeded", [st, "mutate", "gaps"] + flags((["-r", "--rate"], frac(), 0.7), (["-n", "--prop-seq"], frac(), 0.7)), True, "seeded-mutate-gaps")
+        # the same for the sampling commands and `random` (which reads nothing): every flag present or left to its default
+        yield Case("cli_seeded", [st, "sample", "seqs"] + flags((["-n", "--nb-seq"], str(rng.choice([1, 1, 2, max(1, n // 2), n, n, n + 1, 0])), 0.8),
+                                                                (["-s", "--nb-samples"], str(rng.choice([0, 1, 2, 3])), 0.6), (["-o", "--output"], rng.choice(["stdout", "-"]), 0.2)),
+                   n >= 2, "seeded-sample-seqs-flags")
+        yield Case("cli_seeded", [st, "sample", "sites"] + flags((["-l", "--length"], str(rng.choice([1, 2, max(1, L // 2), max(1, L - 1), L, L + 1, 0])), 0.85),
+                                                                 (["--consecutive=false", "--consecutive=false", "--consecutive=true", "--consecutive"], None, 0.6),
+                                                                 (["-n", "--nsamples"], str(rng.choice([1, 1, 0])), 0.3), (["-o", "--output"], rng.choice(["stdout", "-"]), 0.2)),
+                   L >= 2, "seeded-sample-sites-flags")
+        yield Case("cli_seeded", [st, "shuffle", "seqs"] + flags(), n >= 2, "seeded-shuffle-seqs-flags")
+        yield Case("cli_seeded", ["_", "random"] + flags((["-l", "--length"], str(rng.choice([1, 3, 10, 79, 80, 81, 161])), 0.7), (["-n", "--nb-seqs"], str(rng.randint(1, 12)), 0.7),
+                                                         (["-a", "--amino-acids"], None, 0.4), (["-o", "--out-align"], rng.choice(["stdout", "-"]), 0.2)),
+                   True, "seeded-random")
+        yield Case("cli_libf", [st, "_", "sample", "sites"] + flags((["-l", "--length"], str(rng.choice([1, 2, max(1, L // 2), L, L + 1])), 0.9),
+                                                                      (["--consecutive=false", "--consecutive=true"], None, 0.5),
+                                                                      (["-n", "--nsamples"], str(rng.randint(2, 4)), 1.0), (["-o", "--output"], rng.choice(["smp", "sub_1"]), 0.7)),
+                   L >= 2, "seeded-sample-sites-files")
         # --- seeded commands with side files (`cli_libf`: the driver places / collects the files) --------------------------
         names = [r[0] for r in rows]
         counted = rng.sample(names, rng.randint(1, n))
@@ -385,6 +403,10 @@ def gen(rng, tier):
         yield c
     # --- exact bytes of seeded commands -----------------------------------------------------------------
     for c in gen_seeded(rng, tier):
+        yield c
+    # --- exact bytes of two unseeded commands nobody else owns: divide (files per alignment / group), identical -----
+    from driver import cligen
+    for c in cligen.cases(rng, ['divide', 'identical'], 30 if quick else 300):
         yield c
 
 
